@@ -25,8 +25,10 @@ from typing import Sequence
 VERIF = "/verif"
 COQ_DIR = os.path.join(VERIF, "coq")
 WORK = os.path.join(VERIF, ".work")
-REPLAYS = os.path.join(VERIF, "replays")
-EVIDENCE = os.path.join(VERIF, "evidence")
+REPO = os.environ.get("VERIF_REPO", "/repo")  # /repo unless a seeded-change trial points at a scratch worktree
+_OUT = os.environ.get("VERIF_OUT") or VERIF
+REPLAYS = os.path.join(_OUT, "replays")
+EVIDENCE = os.path.join(_OUT, "evidence")
 KNOWN = os.path.join(VERIF, "known_findings.json")
 NCPU = max(2, (os.cpu_count() or 4))
 
